@@ -214,4 +214,39 @@ PROPS = {
         "level_note": "Trusted: Coq kernel + vm_compute; hand model tied by differential testing; evaluate/split tools only reuse Corpus::from_reader.",
         "technique": "machine-checked proof in Coq (round-trip law of the line format) + checked model/code correspondence",
     },
+    "C09": {
+        "theorems": ["c09_truncated_rejected", "c09_foreign_rejected", "c09_no_strict_prefix_decodes"],
+        "check_targets": ["Check/ImgCheck.vo"],
+        "case_type": "c09case",
+        "report_fn": "c09_report",
+        "harness": "C09",
+        "n": {"quick": 12, "thorough": 60},
+        "rule": "cases = images (about 263 kB each) of generated dictionaries: matrix / raw / dual connector, with or without user lexicon and id mapping; per image: Dictionary::read on strict prefixes at offsets 0-399, the last 3000, 2500 random ones (thorough: 40000, and EVERY offset for three images, in parallel), on every single-byte substitution of the 21 magic bytes (7 values per position, all 255 for the first images), partial / shortened / lengthened magics and other tool or version strings, each alone and followed by the valid payload; the model decodes the first two images of a run completely (nine in the thorough tier); non-trivial: at least 1000 prefixes and 100 magics tested for the image",
+        "trusted_base": [
+            "modelled, not verified: bincode 2's derive output and its handling of short reads (the model is the documented wire format: u64 lengths, u8 Option tag, u32 enum tag, fixed arrays without length, structs in declaration order) — validated on every run by decoding real images with the model (all bytes consumed, identical re-encoding); crawdad's trie blob is opaque bytes; UTF-8 validation of strings by the decoder is not modelled (it can only reject more)",
+            "that the Rust decoder turns 'not enough bytes' into Err rather than a panic or a huge allocation is observed (every tested prefix), not proved",
+        ],
+        "assumptions": ["numeric fields fit their widths (inner_dom): true of every image the implementation writes"],
+        "level_text": "Coq theorems c09_truncated_rejected (for every well-formed dictionary value and EVERY strict prefix of its image, the model of Dictionary::read fails: laws 'round trip' and 'no strict prefix decodes' proved for every combinator — fixed-width integers, vectors, strings, Option, enum tags, fixed arrays, guarded values — and composed over the whole DictionaryInner layout incl. the three connector kinds) and c09_foreign_rejected (anything not starting with the generated MODEL_MAGIC is rejected). Tied to the code on every run: the model decodes real images byte for byte and re-encodes them identically, rejects the same sampled prefixes, and the oracle requires Err (no Ok, no panic) from the real Dictionary::read on thousands of prefixes and wrong magics per image (all offsets in the thorough tier).",
+        "level_note": "Partial where the runtime matters: Err-instead-of-panic on short reads is observed, not proved. Trusted: Coq kernel + vm_compute; wire-format model validated against real images on every run.",
+        "technique": "machine-checked proof in Coq (prefix-freeness of a compositional codec) + checked model/code correspondence on real images + truncation sweep",
+    },
+    "C05": {
+        "theorems": ["c05_read_write", "c05_write_count", "c05_rewrite_same", "c05_lanes"],
+        "check_targets": ["Check/ImgCheck.vo"],
+        "case_type": "c05case",
+        "report_fn": "c05_report",
+        "harness": "C05",
+        "avx2": True,
+        "n": {"quick": 60, "thorough": 1500},
+        "rule": "cases = generated dictionaries (matrix / raw / dual connector, optional user lexicon, optional id mapping); D is written (byte count compared), read back as D', written again (bytes compared); 3 sentences are tokenized with both; then 0-3 later operations from {map with random permutations, load user lexicon, clear it, write/read} are applied to both and outcomes, tokens and final images compared; the portable run leaves its images on disk and the AVX2 build of the harness compares its own bytes for the same seeds and reads them; the model decodes and re-encodes the first two images of a run (nine in the thorough tier); non-trivial: at least six comparisons were made for the case",
+        "trusted_base": [
+            "modelled, not verified: bincode 2's derive output and its handling of short reads (the model is the documented wire format: u64 lengths, u8 Option tag, u32 enum tag, fixed arrays without length, structs in declaration order) — validated on every run by decoding real images with the model (all bytes consumed, identical re-encoding); crawdad's trie blob is opaque bytes; UTF-8 validation of strings by the decoder is not modelled (it can only reject more)",
+            "that the Rust decoder turns 'not enough bytes' into Err rather than a panic or a huge allocation is observed (every tested prefix), not proved",
+        ],
+        "assumptions": ["numeric fields fit their widths (inner_dom)", "dual-connector images are not compared across builds (the template split depends on hash order and differs from process to process)"],
+        "level_text": "Coq theorems c05_read_write (read(write d ++ rest) = (d, rest) for every well-formed dictionary value: the compositional round-trip law over the whole DictionaryInner layout, so every later operation sees identical data), c05_write_count, c05_rewrite_same, c05_lanes (a U31x8 is eight little-endian u32 whatever the build). Tied to the code on every run: the model decodes real images completely and re-encodes them to the same bytes; the oracle compares, on the implementation, D with read(write(D)) under tokenization and under later operation sequences (tokens, outcomes, final images), the reported byte count, rewriting, and portable vs AVX2 images.",
+        "level_note": "Trusted: Coq kernel + vm_compute; wire-format model validated against real images; 'behaves identically' follows in the model from equality of the decoded data and is checked behaviourally on the implementation.",
+        "technique": "machine-checked proof in Coq (compositional codec round-trip law) + checked model/code correspondence on real images + behavioural differential oracle",
+    },
 }
